@@ -307,3 +307,38 @@ func VerifH_C23_signature_length_is_modulus_length() {
 		vr.Cover("wrong-length")
 	}
 }
+
+// C23: when the modulus has 8k+1 bits the encoded message has emLen = k octets while the
+// public operation yields k+1 octets; RFC 8017 §8.1.2 step 2c (I2OSP of the message
+// representative into emLen octets) — and crypto/rsa — refuse the signature unless the
+// surplus leading octet is zero. The public operation is a stub returning arbitrary
+// k+1 octets; the EMSA-PSS check is made to succeed whenever it is reached and must be
+// handed exactly the trailing emLen octets.
+// verif: covers=leading-zero,leading-nonzero
+func VerifH_C23_pss_surplus_leading_octet() {
+	crypto.RegisterHash(crypto.MD4, func() hash.Hash { return &mHash{size: 2} })
+	k := 12
+	n := new(big.Int).Lsh(big.NewInt(1), uint(8*k)) // bit length 8k+1, Size() = k+1
+	n.Add(n, big.NewInt(1))
+	pub := &PublicKey{N: n, E: big.NewInt(3)}
+	hashed := vr.Bytes("hashed", 1)
+	out := vr.Bytes("publicOpResult", k+1)
+	var seen []byte
+	vr.Stub("github.com/zmap/zcrypto/rsa.encrypt", func(p *PublicKey, in []byte) ([]byte, error) {
+		return append([]byte{}, out...), nil
+	})
+	vr.Stub("github.com/zmap/zcrypto/rsa.emsaPSSVerify", func(mHash, em []byte, emBits, sLen int, h hash.Hash) error {
+		seen = append([]byte{}, em...)
+		vr.Assert(emBits == 8*k, "emBits is the modulus bit length minus one")
+		return nil
+	})
+	err := VerifyPSS(pub, crypto.MD4, hashed, make([]byte, k+1), nil)
+	if out[0] == 0 {
+		vr.Assert(err == nil, "a zero surplus octet is stripped and the encoding check decides")
+		vr.Assert(vr.BytesEq(seen, out[1:]), "the encoding check sees exactly the trailing emLen octets")
+		vr.Cover("leading-zero")
+	} else {
+		vr.Assert(err != nil, "a non-zero surplus leading octet is refused (message representative out of range)")
+		vr.Cover("leading-nonzero")
+	}
+}
